@@ -12,17 +12,25 @@ Follows == {<<>>, <<PingF>>, <<PingF, CapsF>>, <<Headers1, PingF>>, <<UnkF, Ping
 
 Places == {"h5", "hdr", "mid", "last", "end"}
 \* candidate cuts: everywhere in the handshake message and in the frame behind it, the edges of the next
-Cands(fo) == {[f |-> 0, at |-> a] : a \in Places}
-               \cup (IF Len(fo) >= 1 THEN {[f |-> 1, at |-> a] : a \in Places} ELSE {})
-               \cup (IF Len(fo) >= 2 THEN {[f |-> 2, at |-> a] : a \in {"h5", "end"}} ELSE {})
+Cut(i, a) == [f |-> i, at |-> a, k |-> 0]
+Cands(fo) == {Cut(0, a) : a \in Places}
+               \cup (IF Len(fo) >= 1 THEN {Cut(1, a) : a \in Places} ELSE {})
+               \cup (IF Len(fo) >= 2 THEN {Cut(2, a) : a \in {"h5", "end"}} ELSE {})
 \* cut lists: none (ONE write), one, two (in stream order)
 CutLists(fo) == {<<>>} \cup {<<c>> : c \in Cands(fo)}
                   \cup {<<c, d>> : c \in Cands(fo), d \in Cands(fo)}
 Ordered(p) == /\ \A j \in 1..Len(p.cuts) : Off(p, p.cuts[j]) > 0 /\ Off(p, p.cuts[j]) < TotalOf(p)
               /\ \A j \in 1..Len(p.cuts) - 1 : Off(p, p.cuts[j]) < Off(p, p.cuts[j + 1])
-AllPlans == {p \in {[role |-> r, follow |-> fo, cuts |-> cs] :
+SetPlans == {p \in {[role |-> r, follow |-> fo, cuts |-> cs] :
                       r \in {"initiate", "accept"}, fo \in Follows, cs \in UNION {CutLists(f2) : f2 \in Follows}} :
                /\ p.cuts \in CutLists(p.follow) /\ Ordered(p)}
+\* every split point of the handshake message itself (header AND body), the rest in the same write
+\* as the tail of the message or alone
+SweepPlans == {[role |-> r, follow |-> fo, cuts |-> <<[f |-> 0, at |-> "b", k |-> s]>>] :
+                 r \in {"initiate", "accept"}, fo \in {<<PingF>>}, s \in 1..(HDR + HSBODY - 1)}
+              \cup {[role |-> r, follow |-> <<PingF>>, cuts |-> <<[f |-> 0, at |-> "b", k |-> s], Cut(0, "end")>>] :
+                 r \in {"initiate", "accept"}, s \in {HDR + 1, HDR + HSBODY \div 2, HDR + HSBODY - 1}}
+AllPlans == SetPlans \cup SweepPlans
 \* probe (Buffered = TRUE): HandoverExact must FAIL on the one-write plan
 ProbePlans == {[role |-> "initiate", follow |-> <<PingF>>, cuts |-> <<>>]}
 
@@ -32,6 +40,7 @@ Case(p) == [role |-> p.role, cuts |-> p.cuts, coalesced |-> Coalesced(p),
             frames |-> p.follow, expect |-> [i \in 1..Len(p.follow) |-> ExpectOf(p.follow[i], i)],
             classes |-> [i \in 1..Len(p.follow) |-> ClassOf(p.follow[i])],
             starts |-> StartsRel(p.follow, 1, 0), total |-> TotalOf(p) - HsEnd, silent |-> {},
+            hs_model_size |-> HsEnd,
             model_offsets |-> [j \in 1..Len(p.cuts) |-> Off(p, p.cuts[j])]]
 EmitSpec == Init /\ [][FALSE]_vars
 Emit == PrintT(<<"HANDOVER", ToJson(Case(plan))>>)
